@@ -44,11 +44,6 @@ Qed.
 Lemma gen_sh_flags : (F_ALLOC, F_TLS, F_COMPRESSED) = (SHF_ALLOC, SHF_TLS, SHF_COMPRESSED).
 Proof. reflexivity. Qed.
 
-(* [name_code_ok T n c]: in decoding table T, exactly the value c is reported under name n *)
-Definition name_code_ok (T : list (Z * string)) (n : string) (c : Z) : bool :=
-  (match dict_get T c with Some m => String.eqb m n | None => false end)
-  && forallb (fun kv => implb (String.eqb (snd kv) n) (fst kv =? c)) T.
-
 Lemma dict_get_in (T : list (Z * string)) v n : dict_get T v = Some n -> In (v, n) T.
 Proof.
   induction T as [|[k m] r IH]; cbn [dict_get]; [discriminate|].
@@ -70,10 +65,6 @@ Proof.
     cbn [implb] in Hall. apply Z.eqb_eq in Hall. contradiction.
 Qed.
 
-(* no key of T lies in [lo, hi]: such values stay raw integers *)
-Definition no_key_between (T : list (Z * string)) (lo hi : Z) : bool :=
-  forallb (fun kv => negb ((lo <=? fst kv) && (fst kv <=? hi))) T.
-
 Lemma raw_between_dec T lo hi v :
   no_key_between T lo hi = true ->
   raw_between (dec_enum T v) lo hi = (lo <=? v) && (v <=? hi).
@@ -83,16 +74,6 @@ Proof.
   specialize (Hall (v, m) (dict_get_in T v m Eg)). cbn [fst] in Hall.
   destruct ((lo <=? v) && (v <=? hi)); [discriminate|reflexivity].
 Qed.
-
-(* the sh_type facts Section.data relies on, for a decoding table *)
-Definition sh_type_table_ok (T : list (Z * string)) : bool := name_code_ok T "SHT_NOBITS" SHT_NOBITS.
-(* the p_type facts address_offsets and section_in_segment rely on *)
-Definition p_type_table_ok (T : list (Z * string)) : bool :=
-  name_code_ok T "PT_LOAD" PT_LOAD && name_code_ok T "PT_DYNAMIC" PT_DYNAMIC &&
-  name_code_ok T "PT_NOTE" PT_NOTE && name_code_ok T "PT_PHDR" PT_PHDR &&
-  name_code_ok T "PT_TLS" PT_TLS && name_code_ok T "PT_GNU_EH_FRAME" PT_GNU_EH_FRAME &&
-  name_code_ok T "PT_GNU_STACK" PT_GNU_STACK && name_code_ok T "PT_GNU_RELRO" PT_GNU_RELRO &&
-  no_key_between T PT_GNU_SFRAME PT_GNU_MBIND_HI.
 
 (* every table ELFStructs can select (per e_machine) has these facts — finite, by computation *)
 Lemma gen_sh_type_tables_ok :
